@@ -79,6 +79,11 @@ def make_pool(seed):
         {'a': np.array([0], dtype=np.int32)})
     P['mQT'] = S['Q2'].build().with_subdomains({'s': np.array([1], dtype=np.int32)}).with_boundaries(
         {'a': np.array([0, 1], dtype=np.int32)})
+    # same cells in another order (same array shapes, other facet ownership) for orientation-dependent elements
+    P['mAr'] = fem.MeshTri(S['Tfan4'].p.copy(), S['Tfan4'].t[:, ::-1].copy())
+    P['eRT'] = E.ElementTriRT1()
+    P['eN1'] = E.ElementTriN1()
+    P['eBDM'] = E.ElementTriBDM1()
     P['eP2'] = E.ElementTriP2()
     P['eMor'] = E.ElementTriMorley()
     P['eLpp'] = E.ElementLinePp(3)
@@ -107,7 +112,7 @@ def make_pool(seed):
     return P
 
 
-MESH_KEYS = ('mA', 'mC', 'mB', 'mQ', 'mL', 'mT', 'mT2', 'mM', 'mO', 'mO2', 'mKT', 'mLT', 'mQT')
+MESH_KEYS = ('mA', 'mC', 'mB', 'mQ', 'mL', 'mT', 'mT2', 'mM', 'mO', 'mO2', 'mKT', 'mLT', 'mQT', 'mAr')
 
 
 def tag_arrays(m):
@@ -162,13 +167,13 @@ def cache_signature(P):
             c = vars(mp).get('_cache')
             if c is not None:
                 h.update(str(sorted((kk, v.shape) for kk, v in c.items())).encode())
-    for k in ('eMor', 'eLpp', 'eQP'):
+    for k in sorted(kk for kk in P if kk.startswith('e')):
         e = P[k]
-        for attr in ('V', '_X', 'P', 'Px', 'Py'):
+        for attr in sorted(set(vars(e)) | {'V', '_X', 'P', 'Px', 'Py', '_ori'}):
             v = getattr(e, attr, None)
             if isinstance(v, np.ndarray):
                 h.update(attr.encode() + str(v.shape).encode() + np.ascontiguousarray(v).tobytes())
-            else:
+            elif v is None:
                 h.update((attr + ':None').encode())
     for k in ('s_direct', 's_krylov', 's_pcg', 's_cg'):
         f = P[k]
@@ -310,6 +315,15 @@ def operations():
             import shutil
             shutil.rmtree(d, ignore_errors=True)
     op('mA.save+load', {'mA'})(save)
+    # ---- one H(div) / H(curl) element object on meshes of equal size whose facets are owned / directed differently
+    for ek in ('eRT', 'eN1', 'eBDM'):
+        for mk in ('mB', 'mAr', 'mM'):
+            op(f'InteriorFacetBasis({mk},{ek})', {mk, ek})(
+                lambda P, mk=mk, ek=ek: _basis_obs(fem.InteriorFacetBasis(P[mk], P[ek], side=0)) +
+                _basis_obs(fem.InteriorFacetBasis(P[mk], P[ek], side=1)))
+        op(f'CellBasis(mB,{ek}).mass', {'mB', ek})(
+            lambda P, ek=ek: [fem.BilinearForm(lambda u, v, w: sum(u[k] * v[k] for k in range(2))).assemble(
+                fem.CellBasis(P['mB'], P[ek])).toarray()])
     # ---- constructors / conversions fed with the arrays of an unsorted-column mesh -----------------------------------
     op('MeshTri(mO.p,mO.t)', {'mO'})(lambda P: [fem.MeshTri(P['mO'].p, P['mO'].t).t])
     op('MeshTri2.from_mesh(mO)', {'mO'})(lambda P: [fem.MeshTri2.from_mesh(P['mO']).t])
